@@ -616,6 +616,10 @@ func Execute(c *DagCase) *Result {
 		switch oc {
 		case "err":
 			e = r.sentinels[i]
+		case "errc": // the task's own sub-context was cancelled: still a failure of the task
+			e = fmt.Errorf("%w: %w", r.sentinels[i], context.Canceled)
+		case "errd":
+			e = fmt.Errorf("%w: %w", r.sentinels[i], context.DeadlineExceeded)
 		case "skip":
 			e = dag.ErrorSkipParents
 		}
